@@ -268,9 +268,7 @@ def lemmas(chk):
 PREFIXES = ['', 'p_', 'amplitude', 'a', 'loc', ' ', 'x' * 300, 'sca', 'scale', 'ü_', 'a0', '__', 'fraction_', '0']
 
 
-def prefixes(chk, mod):
-    """[bounded] prefix handling on an adversarial finite set, with the numeric kernels stubbed out."""
-    import scipp  # noqa: F401  (real scipp is not used: symbolic values are passed through)
+def prefix_failures(mod):
     failures = []
     cases = 0
     for cls, names in (('GaussianModel', ('amplitude', 'loc', 'scale')), ('LorentzianModel', ('amplitude', 'loc', 'scale')),
@@ -290,7 +288,15 @@ def prefixes(chk, mod):
                 problems.append(f'raised {type(e).__name__} for the exact prefixed names')
             if m.param_names != set(vals) or m.prefix != pf:
                 problems.append('param_names/prefix wrong')
-            for badkeys in (list(vals)[:-1], list(vals) + [pf + 'extra'], [k + 'x' for k in vals]):
+            good = list(vals)
+            other = (chr(ord(pf[0]) ^ 1) + pf[1:]) if pf else 'z'     # same length, different text
+            bad_sets = [good[:-1], good + [pf + 'extra'], [k + 'x' for k in good], [other + n for n in names],
+                        good + [other + names[0]], good[1:] + [other + names[0]], [n for n in names] if pf else good[:-1],
+                        [pf + pf + n for n in names] if pf else good[:-1], [k.upper() for k in good] if any(k.upper() != k for k in good) else good[:-1],
+                        good[:-1] + [' ' + good[-1]]]
+            for badkeys in bad_sets:
+                if set(badkeys) == set(good):
+                    continue
                 try:
                     m(None, **{k: 0 for k in badkeys})
                     problems.append(f'accepted wrong parameter set {badkeys}')
@@ -306,6 +312,12 @@ def prefixes(chk, mod):
                 problems.append(f'param_bounds keys {list(pb)}')
             if problems:
                 failures.append({'id': f'{cls}:{pf[:10]!r}', 'class': cls, 'prefix': pf, 'problems': problems})
+    return cases, failures
+
+
+def prefixes(chk, mod):
+    """[bounded] prefix handling on an adversarial finite set, with the numeric kernels stubbed out."""
+    cases, failures = prefix_failures(mod)
     chk.bounded_check('prefix-handling', 'real Model.__call__/param_names/with_prefix/param_bounds with stubbed kernels',
                       f'{len(PREFIXES)} adversarial prefixes x 3 model classes', cases, failures)
 
@@ -387,6 +399,10 @@ def bounded_guess(chk):
 
 
 def replay(rec):
+    if 'prefix' in rec['obligation']:
+        from vf.realrun import real_module
+        cases, fails = prefix_failures(real_module('peaks.model'))
+        return {'reproduced': bool(fails), 'cases': fails[:1]}
     fails = _guess_failures(150, 21)
     if fails:
         return {'reproduced': True, 'cases': fails[:1]}
